@@ -560,11 +560,11 @@ def r_state(prog, tier):
                       construct='g3-test', line=f.node.lineno))
         if fresh_test is None:
             continue
-        load_block = set(n.id for n in cfg.nodes if any(a.owner is fresh_test.ast and False for a in []))
-        tru = [a for a in cfg.nodes if a.kind == 'assume' and a.owner is cfg.nodes[fresh_test.id].owner and a.pol]
-        # nodes inside the reload block = dominated by the true-branch of the test
-        entry_true = [s for s in cfg.succ[fresh_test.id] if cfg.nodes[s].kind == 'assume' and cfg.nodes[s].pol] or \
-                     [s for s in cfg.succ[fresh_test.id]]
+        # a statement is inside the reload block iff it cannot be reached when the freshness test is false
+        fb = cfg.branch.get(fresh_test.id, {}).get(False)
+        if fb is None:
+            raise AnalysisError('%s: freshness test has no else path' % f.fq)
+        reach_false = cfg.reach(fb) | {fb}
         from ..core import MUTATORS
         for n in cfg.eval_nodes():
             if n.kind != 'stmt':
@@ -586,15 +586,6 @@ def r_state(prog, tier):
                         and unparse(sub.func.value).startswith('%s.terminals' % nm):
                     muts.append(unparse(sub)[:70])
             for mt in muts:
-                inside = any(cfg.dominates(e, n.id) for e in entry_true if cfg.nodes[e].kind == 'assume' and cfg.nodes[e].pol) \
-                    or any(cfg.dominates(a.id, n.id) for a in cfg.nodes if a.kind == 'assume' and a.owner is fresh_test.owner
-                           and a.pol is False and False)
-                # the test is an OR: its true branch is not a conjunction of facts; use reachability instead:
-                # the statement is inside the reload block iff it cannot be reached when the test is false
-                false_edges = [s for s in cfg.succ[fresh_test.id] if cfg.nodes[s].kind == 'assume' and not cfg.nodes[s].pol]
-                reach_false = set()
-                for s in false_edges:
-                    reach_false |= cfg.reach(s) | {s}
                 inside = n.id not in reach_false
                 obs.append(Ob('R-STATE/G3', f.fq, 'the cache is only written while (re)loading the file: `%s`' % mt, inside,
                               'inside the reload block' if inside else 'the cache is modified while trees are processed: '
